@@ -500,16 +500,25 @@ fn gen_c15(rng: &mut Rng, out: &mut Vec<Case>) {
                 }
                 "alter_rollback" => {
                     let g = cat.get_mut(&t).unwrap();
-                    let c = g.cols.last().unwrap().0.clone();
-                    let alt = if !g.dirty && rng.chance(1, 2) {
+                    let end = if rng.chance(1, 2) { "rollback" } else { "drop" };
+                    if !g.dirty && rng.chance(1, 2) {
+                        // ADD COLUMN rolled back: a row of the old shape must still be accepted
                         extra_col += 1;
-                        format!("ac {} y{}:int", t, extra_col)
-                    } else if rng.chance(1, 2) && g.cols.len() > 1 && g.rows > 0 {
-                        format!("sn {} {}", t, c)
+                        ops.push(format!("s1 begin ; s1 ac {} y{}:int ; s1 {} ; db sel {} ; db {} ; db sel {}", t, extra_col, end, t, g_ins(&t, g), t));
+                    } else if g.cols.len() > 1 && g.cols[1].1 == "int" {
+                        // SET NOT NULL rolled back: a NULL must still be accepted
+                        let c = g.cols[1].0.clone();
+                        let k = g.next_key;
+                        g.next_key += 1;
+                        g.rows += 1;
+                        g.dirty = true;
+                        let mut vals: Vec<String> = g.cols.iter().map(|(_, ty)| if *ty == "text" { "'a'".to_string() } else { k.to_string() }).collect();
+                        vals[1] = "null".into();
+                        ops.push(format!("s1 begin ; s1 sn {} {} ; s1 {} ; db ins {} {} ; db sel {}", t, c, end, t, vals.join(" "), t));
                     } else {
-                        format!("dn {} {}", t, c)
-                    };
-                    ops.push(format!("s1 begin ; s1 {} ; s1 {} ; db sel {} ; db {} ; db sel {}", alt, if rng.chance(1, 2) { "rollback" } else { "drop" }, t, g_ins(&t, g), t));
+                        let c = g.cols.last().unwrap().0.clone();
+                        ops.push(format!("s1 begin ; s1 dn {} {} ; s1 {} ; db {} ; db sel {}", t, c, end, g_ins(&t, g), t));
+                    }
                     add_tag(&mut tags, "alter_rollback");
                     nt = true;
                 }
